@@ -60,6 +60,7 @@ import (
 	"github.com/CycloneDX/cyclonedx-go"
 	scalibr "github.com/google/osv-scalibr"
 	"github.com/google/osv-scalibr/binary/cdx"
+	"github.com/google/osv-scalibr/binary/cli"
 	"github.com/google/osv-scalibr/binary/spdx"
 	"github.com/google/osv-scalibr/converter"
 	"github.com/google/osv-scalibr/extractor"
@@ -301,8 +302,30 @@ func cdxPurls(cs *[]cyclonedx.Component, out *[]string) {
 }
 
 // roundTrip exports the inventory in one format into dir and scans dir.
-func roundTrip(inv []poolItem, f format, dir string) (o outcome) {
+// exportDirect converts the inventory and writes it with the library's writer; it returns the
+// PURL strings present in the in-memory document.
+func exportDirect(inv []poolItem, f format, path string) (raw []string, err error) {
+	res := scanResultOf(inv)
+	if strings.HasPrefix(f.Name, "spdx23") {
+		doc := converter.ToSPDX23(res, converter.SPDXConfig{})
+		for _, sp := range doc.Packages {
+			for _, r := range sp.PackageExternalReferences {
+				if r.RefType == "purl" {
+					raw = append(raw, r.Locator)
+				}
+			}
+		}
+		return raw, spdx.Write23(doc, path, f.Name)
+	}
+	bom := converter.ToCDX(res, converter.CDXConfig{})
+	cdxPurls(bom.Components, &raw)
+	return raw, cdx.Write(bom, path, f.Name)
+}
+
+// expectedBack is the reference R: canonical PURLs of the inventory's PURL-bearing packages (DC1).
+func expectedBack(inv []poolItem, f format) []string {
 	isSPDX := strings.HasPrefix(f.Name, "spdx23")
+	out := []string{}
 	for _, p := range inv {
 		if p.U == nil {
 			continue
@@ -310,44 +333,37 @@ func roundTrip(inv []poolItem, f format, dir string) (o outcome) {
 		if isSPDX && (p.U.Name == "" || p.U.Version == "") {
 			continue // DC1: the exclusion ToSPDX23 states
 		}
-		o.Inv = append(o.Inv, canon(p.U.String()))
+		out = append(out, canon(p.U.String()))
 	}
-	sort.Strings(o.Inv)
+	sort.Strings(out)
+	return out
+}
+
+// roundTrip exports the inventory in one format into dir and scans dir.
+func roundTrip(inv []poolItem, f format, dir string) (o outcome) {
+	return roundTripOver(nil, inv, f, dir)
+}
+
+// roundTripOver first writes the inventory `over` (if any) to the same path: the export under
+// test then replaces an existing report.
+func roundTripOver(over, inv []poolItem, f format, dir string) (o outcome) {
+	o.Inv = expectedBack(inv, f)
 	pv, st := ev.Recover(func() {
-		pkgs := make([]*extractor.Package, 0, len(inv))
-		for _, p := range inv {
-			pkgs = append(pkgs, p.pkg())
-		}
-		res := &scalibr.ScanResult{
-			Version: "verif", StartTime: time.Unix(1700000000, 0), EndTime: time.Unix(1700000001, 0),
-			Status:    &plugin.ScanStatus{Status: plugin.ScanStatusSucceeded},
-			Inventory: inventory.Inventory{Packages: pkgs},
-		}
 		if err := os.MkdirAll(dir, 0o755); err != nil {
 			o.WriteErr = "harness: " + err.Error()
 			return
 		}
 		defer os.RemoveAll(dir)
 		path := filepath.Join(dir, f.File)
-		var raw []string
-		if strings.HasPrefix(f.Name, "spdx23") {
-			doc := converter.ToSPDX23(res, converter.SPDXConfig{})
-			for _, sp := range doc.Packages {
-				for _, r := range sp.PackageExternalReferences {
-					if r.RefType == "purl" {
-						raw = append(raw, r.Locator)
-					}
-				}
+		if over != nil {
+			if _, err := exportDirect(over, f, path); err != nil {
+				o.WriteErr = "first write: " + err.Error()
+				return
 			}
-			if err := spdx.Write23(doc, path, f.Name); err != nil {
-				o.WriteErr = err.Error()
-			}
-		} else {
-			bom := converter.ToCDX(res, converter.CDXConfig{})
-			cdxPurls(bom.Components, &raw)
-			if err := cdx.Write(bom, path, f.Name); err != nil {
-				o.WriteErr = err.Error()
-			}
+		}
+		raw, err := exportDirect(inv, f, path)
+		if err != nil {
+			o.WriteErr = err.Error()
 		}
 		for _, s := range raw {
 			o.Expected = append(o.Expected, canon(s))
@@ -390,6 +406,56 @@ func roundTrip(inv []poolItem, f format, dir string) (o outcome) {
 		o.ExpSpur = multisetDiff(o.Expected, o.Inv)
 	}
 	return o
+}
+
+// cliResult is the outcome of one cli.Flags.WriteScanResults call with several -o items.
+type cliResult struct {
+	Err    string            `json:"write_error,omitempty"`
+	Panic  string            `json:"panic,omitempty"`
+	Failed []string          `json:"formats_not_read_back_exactly"`
+	Detail map[string]string `json:"detail"`
+}
+
+// cliExport writes the inventory the way the scalibr binary does (binary/cli:
+// Flags.WriteScanResults with one -o item per format, each file in its own sub-directory) and
+// scans every sub-directory: each must give R(format).
+func cliExport(inv []poolItem, fmts []int, configured bool, dir string) (c cliResult) {
+	c.Detail = map[string]string{}
+	defer os.RemoveAll(dir)
+	pv, st := ev.Recover(func() {
+		fl := &cli.Flags{}
+		if configured {
+			fl.SPDXDocumentName, fl.SPDXDocumentNamespace, fl.SPDXCreators = "main", "https://example.com/ns/1", "Person:verif,Organization:acme"
+			fl.CDXComponentName, fl.CDXComponentVersion, fl.CDXAuthors = "pkg", "1.0", "a,b"
+		}
+		for k, fi := range fmts {
+			d := filepath.Join(dir, fmt.Sprintf("o%d", k))
+			if err := os.MkdirAll(d, 0o755); err != nil {
+				c.Err = "harness: " + err.Error()
+				return
+			}
+			fl.Output = append(fl.Output, formats[fi].Name+"="+filepath.Join(d, formats[fi].File))
+		}
+		if err := cli.ValidateFlags(&cli.Flags{Root: "/", Output: fl.Output, SPDXCreators: fl.SPDXCreators}); err != nil && strings.Contains(err.Error(), "output") {
+			c.Err = "flags rejected: " + err.Error()
+			return
+		}
+		if err := fl.WriteScanResults(scanResultOf(inv)); err != nil {
+			c.Err = err.Error()
+		}
+		for k, fi := range fmts {
+			want := expectedBack(inv, formats[fi])
+			got := scanWith([]filesystem.Extractor{spdxe.New(), cdxe.New()}, filepath.Join(dir, fmt.Sprintf("o%d", k)))
+			if len(multisetDiff(want, got)) != 0 || len(multisetDiff(got, want)) != 0 {
+				c.Failed = append(c.Failed, formats[fi].Name)
+				c.Detail[fmt.Sprintf("-o #%d %s", k+1, formats[fi].Name)] = fmt.Sprintf("expected back %q, read back %q", want, got)
+			}
+		}
+	})
+	if pv != nil {
+		c.Panic = fmt.Sprint(pv) + " at " + ev.PanicSite(st)
+	}
+	return c
 }
 
 func scanResultOf(inv []poolItem) *scalibr.ScanResult {
@@ -587,6 +653,12 @@ func histRun(fam string, i1, i2 []poolItem, dir string, seqOnly []string) (vs []
 	return vs, runs, panicked
 }
 
+type cliReplay struct {
+	Formats    []string   `json:"output_formats_in_order"`
+	Configured bool       `json:"document_flags_set"`
+	Inventory  []poolItem `json:"inventory"`
+}
+
 type histReplay struct {
 	Family string     `json:"importer"`
 	I1     []poolItem `json:"inventory_1"`
@@ -595,6 +667,8 @@ type histReplay struct {
 }
 
 type replay struct {
+	CLI       *cliReplay  `json:"cli,omitempty"`
+	Over      []poolItem  `json:"written_first_to_the_same_path,omitempty"`
 	History   *histReplay `json:"history,omitempty"`
 	Format    string      `json:"format"`
 	Inventory []poolItem  `json:"inventory"`
@@ -627,6 +701,26 @@ func doReplay(file string) {
 		os.Exit(3)
 	}
 	root := scratchRoot()
+	if cr := rec.Replay.CLI; cr != nil {
+		var fi []int
+		for _, n := range cr.Formats {
+			for i, x := range formats {
+				if x.Name == n {
+					fi = append(fi, i)
+				}
+			}
+		}
+		c := cliExport(cr.Inventory, fi, cr.Configured, root+"/cli")
+		os.RemoveAll(root)
+		out, _ := json.MarshalIndent(c, "", " ")
+		fmt.Printf("replay %s: cli.Flags.WriteScanResults with -o %v\n%s\n", rec.Key, cr.Formats, out)
+		if c.Err != "" || c.Panic != "" || len(c.Failed) > 0 {
+			fmt.Println("reproduced")
+			os.Exit(1)
+		}
+		fmt.Println("not reproduced: every output file is read back exactly")
+		os.Exit(0)
+	}
 	if h := rec.Replay.History; h != nil {
 		vs, _, pan := histRun(h.Family, h.I1, h.I2, root+"/hist", h.Seq)
 		os.RemoveAll(root)
@@ -649,7 +743,7 @@ func doReplay(file string) {
 	if rec.Replay.File != "" {
 		f.File = rec.Replay.File
 	}
-	o := roundTrip(rec.Replay.Inventory, f, root+"/replay")
+	o := roundTripOver(rec.Replay.Over, rec.Replay.Inventory, f, root+"/replay")
 	os.RemoveAll(root)
 	out, _ := json.MarshalIndent(o, "", " ")
 	fmt.Printf("replay %s format=%s file=%s inventory=%d packages\n%s\n", rec.Key, f.Name, f.File, len(rec.Replay.Inventory), out)
@@ -1067,6 +1161,142 @@ func main() {
 	r.Set("file_names_judged", nameStats)
 	r.Assume("file names: spellings marked 'by analogy' (upper-case variants of bom.json/bom.xml, .cdx.xml, .spdx.json, .spdx.yml) assume the importers match ALL their patterns case-insensitively; the extractors' own tests establish that only for *.cdx.json (sbom.cdx.JSON, sbom.cDX.json) and *.spdx (sbom.SPDX, sbom.SpDx), the rest follows from the single ToLower-based matcher they share")
 	if doneN < len(jobsN) {
+		finish("SBOM export -> own importer round trip preserves the PURL multiset", false)
+	}
+
+	// phase 1d: export through binary/cli (Flags.WriteScanResults), the code path of the scalibr
+	// binary: every single -o format, every ordered pair of formats, all five in both orders; x
+	// every single-package inventory over Q and one 3-package inventory; document flags unset / set.
+	// Judged only for formats whose direct export of the same inventory is exact.
+	var outSets [][]int
+	for a := range formats {
+		outSets = append(outSets, []int{a})
+	}
+	for a := range formats {
+		for b := range formats {
+			if a != b {
+				outSets = append(outSets, []int{a, b})
+			}
+		}
+	}
+	outSets = append(outSets, []int{0, 1, 2, 3, 4}, []int{4, 3, 2, 1, 0})
+	type cjob struct {
+		inv  []int
+		set  []int
+		conf bool
+	}
+	var jobsC []cjob
+	for i := range Q {
+		for si, set := range outSets {
+			jobsC = append(jobsC, cjob{[]int{i}, set, (i+si)%2 == 1})
+		}
+	}
+	for si, set := range outSets {
+		jobsC = append(jobsC, cjob{triple, set, si%2 == 0})
+	}
+	resC := make([]*cliResult, len(jobsC))
+	directOK := func(inv []int, f int) bool { // phase 1 / 1b verdict for the same inventory and format
+		if len(inv) == 1 {
+			// Q singletons are P singletons too: find the phase-1 job
+			for i, j := range jobs1 {
+				if len(j.inv) == 1 && j.f == f && idOf(P[j.inv[0]]) == idOf(Q[inv[0]]) {
+					return res1[i] != nil && res1[i].ok()
+				}
+			}
+		}
+		o := roundTrip(get(job{inv, true, f}), formats[f], nextDir())
+		return o.ok()
+	}
+	doneC := r.ParallelFor(len(jobsC), func(i int) {
+		j := jobsC[i]
+		c := cliExport(get(job{j.inv, true, 0}), j.set, j.conf, nextDir())
+		r.Evals.Add(1)
+		resC[i] = &c
+	})
+	cliJudged := 0
+	for i, c := range resC {
+		if c == nil {
+			continue
+		}
+		j := jobsC[i]
+		inv := get(job{j.inv, true, 0})
+		var names []string
+		for _, fi := range j.set {
+			names = append(names, formats[fi].Name)
+		}
+		cliJudged++
+		r.Distinct("cli|" + strings.Join(names, ",") + "|" + fmt.Sprint(j.conf) + "|" + strings.Join(purlsOf(inv), " "))
+		rp := replay{CLI: &cliReplay{names, j.conf, inv}}
+		many := "single-output"
+		if len(j.set) > 1 {
+			many = "several-outputs"
+		}
+		switch {
+		case c.Panic != "":
+			r.Violation("cli-export:panic", fmt.Sprintf("cli.Flags.WriteScanResults -o %v on inventory %q panicked: %s", names, purlsOf(inv), c.Panic), rp)
+			continue
+		case c.Err != "":
+			r.Violation("cli-export:error:"+many, fmt.Sprintf("cli.Flags.WriteScanResults -o %v on inventory %q failed: %s", names, purlsOf(inv), c.Err), rp)
+			continue
+		}
+		for _, fn := range c.Failed {
+			fi := 0
+			for k, x := range formats {
+				if x.Name == fn {
+					fi = k
+				}
+			}
+			if !directOK(j.inv, fi) {
+				continue // the direct export of this format already fails: reported there
+			}
+			r.Violation("cli-export:"+many+":"+fn, fmt.Sprintf("cli.Flags.WriteScanResults -o %v (document flags set: %v), inventory %q: %v; the same inventory written with the converter and writer directly is read back exactly", names, j.conf, purlsOf(inv), c.Detail), rp)
+		}
+	}
+	r.Set("cli_export_phase", map[string]int{"output_sets": len(outSets), "runs": cliJudged})
+	if doneC < len(jobsC) {
+		finish("SBOM export -> own importer round trip preserves the PURL multiset", false)
+	}
+
+	// phase 1e: the export replaces an existing report at the same path (a longer one, and a
+	// shorter one): what is read back is the new inventory only.
+	big := []poolItem{Q[1], Q[len(Q)/2], Q[len(Q)-3], Q[2]}
+	type ojob struct {
+		over, inv []poolItem
+		f         int
+		kind      string
+	}
+	var jobsO []ojob
+	for f := range formats {
+		for i := range Q {
+			jobsO = append(jobsO, ojob{big, []poolItem{Q[i]}, f, "over-longer-report"})
+			jobsO = append(jobsO, ojob{[]poolItem{Q[i]}, big, f, "over-shorter-report"})
+		}
+		jobsO = append(jobsO, ojob{big, nil, f, "over-longer-report"})
+	}
+	resO := make([]*outcome, len(jobsO))
+	resOD := make([]*outcome, len(jobsO))
+	doneO := r.ParallelFor(len(jobsO), func(i int) {
+		j := jobsO[i]
+		d := roundTrip(j.inv, formats[j.f], nextDir())
+		o := roundTripOver(j.over, j.inv, formats[j.f], nextDir())
+		r.Evals.Add(1)
+		if len(o.Inv) > 0 {
+			r.Distinct("overwrite|" + j.kind + "|" + formats[j.f].Name + "|" + strings.Join(o.Inv, " "))
+		}
+		resO[i], resOD[i] = &o, &d
+	})
+	for i, o := range resO {
+		if o == nil || resOD[i] == nil || !resOD[i].ok() || o.ok() {
+			continue
+		}
+		j := jobsO[i]
+		r.Violation("overwrite:"+formats[j.f].Name+":"+j.kind,
+			fmt.Sprintf("%s written to a path that already held the report of %q, inventory %q: expected back %q, scan returned %q (the same export into a fresh path is read back exactly). importer: %s%s%s",
+				formats[j.f].Name, purlsOf(j.over), purlsOf(j.inv), o.Inv, o.Got, o.ReadFail, o.WriteErr, o.Panic),
+			replay{Format: formats[j.f].Name, Inventory: j.inv, Over: j.over})
+	}
+	r.Set("overwrite_phase_runs", len(jobsO))
+	if doneO < len(jobsO) {
 		finish("SBOM export -> own importer round trip preserves the PURL multiset", false)
 	}
 
